@@ -202,6 +202,10 @@ func runCase(c caseSpec) {
 		runMcastFault(c)
 		return
 	}
+	if c.Scenario == "tunnel-reset" {
+		runTunnelReset(c)
+		return
+	}
 	evals.Add(1)
 	run.Count("cases:"+c.Scenario+"/"+c.Action, 1)
 	log := newCbLog()
@@ -590,6 +594,21 @@ func cases() []caseSpec {
 		for cut := 1; cut <= 2; cut++ {
 			for _, a := range []string{"close", "retry"} {
 				out = append(out, caseSpec{Scenario: "mcast-fault", Transport: "mcast", Clients: 1, Cut: cut, Action: a, Seed: r.Int63()})
+			}
+		}
+	}
+	// tunnelled players with one connection reset by the network
+	for k := 0; k < run.Pick(1, 6); k++ {
+		for _, tr := range []string{"http", "ws"} {
+			for _, tlsOn := range []bool{false, true} {
+				for _, a := range []string{"reset-to-server", "reset-to-client"} {
+					for cut := 0; cut < 2; cut++ {
+						if tr == "ws" && cut == 1 {
+							continue
+						}
+						out = append(out, caseSpec{Scenario: "tunnel-reset", Transport: tr, TLS: tlsOn, Clients: 1, Cut: cut, Action: a, Seed: r.Int63()})
+					}
+				}
 			}
 		}
 	}
